@@ -10,12 +10,16 @@ SEQ_NOTE = ("Trusted base: the Go runtime, the harness (monitored runner mimicki
 CHECKS = {
     "C01": dict(level="exploration", tech="runtime monitoring: sequential conformance histories vs executable admission model at logical quiescence + offline interval checker over the event log (+ porcupine/stress in thorough)",
                 text="Every generated history (all admission classes, unstartable jobs, slow-to-stop tasks, cancels, delay expiry) is executed on the real runner; the executing set after every operation, every task interval [run-enter, run-exit] and every reported job span are checked against the concurrency limit and the model.", ref="4 C01"),
+    "C02": dict(level="exploration", tech="runtime monitoring: per-(job,task) exactly-once counter and dependency-order checker over the runner event log + task-level simulation compared after every step; all 543 labelled 4-node DAGs in thorough",
+                text="Random and hand-picked graph shapes with permuted names (so that the topological sort is the only protection against false cycles), cyclic variants and reserved-variable jobs queued among ordinary jobs; every completion order is driver-chosen through task gates.", ref="4 C02"),
     "C03": dict(level="exploration", tech="runtime monitoring: no-idle-slot-at-logical-quiescence and all-terminal-after-drain oracles over conformance histories",
                 text="Liveness restated as bounded progress at logical instants (no wall clock): no stranded job at quiescence, all jobs terminal after drain; histories biased to cancels of waiting jobs, delays, unstartable heads.", ref="4 C03"),
     "C05": dict(level="exploration", tech="runtime monitoring: one-step conformance of every schedule request against the admission decision table, snapshot invariants on waiting counts",
                 text="All 84 admission classes appear in every tier; each request's result class, victim, post-state and 'no trace' are compared with the table given the observed pre-state.", ref="4 C05"),
     "C06": dict(level="exploration", tech="runtime monitoring: FIFO oracle over recorded Created/Start of all jobs + waiting-list equality with the model after every step",
                 text="Histories with up to ~15 waiting jobs, cancels in the middle of the queue, unstartable heads, concurrency 1-3.", ref="4 C06"),
+    "C08": dict(level="exploration", tech="runtime monitoring: driver-chosen task outcomes as ground truth, task-level simulation vs tasks inside the monitored runner after every step, predicted verdict vs terminal ReadJob snapshot and /job/detail JSON",
+                text="Failure/allow_failure/non-exit-error assignments x both fail-fast settings x release orders x external cancels; verdict soundness (plain success only if all tasks succeeded or failed with allow_failure) is checked on every finished job.", ref="4 C08"),
     "C15": dict(level="exploration", tech="runtime monitoring: API flags (schedulable/running) vs outcome of the next request and vs job list at every quiescent step",
                 text="The schedulable flag is read immediately before every schedule request of the history and compared with what the request then returns; running flag, presence, ordering and timestamps are checked on every snapshot.", ref="4 C15"),
 }
